@@ -259,11 +259,13 @@ def orth(u, normalize=True, zero_rtol=1e-15):
             alpha_jj = 1.0 if normalize else dot(vj, vj)
             vi -= vj * alpha_ij / alpha_jj
         beta_i_new = dot(vi, vi)
-        if beta_i_new / beta_i < zero_rtol:  # Detect zero vector
+        if beta_i == 0 or beta_i_new / beta_i < zero_rtol:  # Detect zero vector
             continue
         if normalize:
             vi /= np.sqrt(beta_i_new)
         orth_vecs.append(vi)
+    if len(orth_vecs) == 0:
+        return np.zeros((u.shape[0], 0), dtype=u.dtype)
     return np.stack(orth_vecs, axis=-1)
 
 
@@ -320,8 +322,10 @@ class CG(LinearSolver):
         if x.ndim == 1:
             x = x.reshape((x.size, 1))
 
+        bnorm = np.linalg.norm(b, axis=0)
+        bnorm[bnorm == 0] = 1.0  # For a zero right-hand-side the absolute residual is used
         r = b - A@x
-        tval = np.linalg.norm(r, axis=0) / np.linalg.norm(b, axis=0)
+        tval = np.linalg.norm(r, axis=0) / bnorm
         if self.verbosity >= 2:
             print(f"CG Initial (max) residual = {tval.max()}")
 
@@ -346,7 +350,7 @@ class CG(LinearSolver):
             else:
                 r -= q @ alpha
 
-            tval = np.linalg.norm(r, axis=0)/np.linalg.norm(b, axis=0)
+            tval = np.linalg.norm(r, axis=0)/bnorm
             if self.verbosity >= 2:
                 print(f"CG i = {i}, residuals = {tval}")
             if tval.max() <= self.tol:
